@@ -64,6 +64,17 @@ Proof.
   rewrite py_int_str_of_Z by (apply digits_ok_small; lia). reflexivity.
 Qed.
 
+(* ... and that is what reaches the broker client: QoS = ack and no retain for every
+   message, the empty payload included *)
+Theorem client_publish_form pre m :
+  wf_msg m -> digits_ok (m_type m) -> rstrip (m_payload m) = m_payload m ->
+  client_write pre (encode m)
+  = Some (pre ++ slash :: join slash (num_fields m), m_ack m, false,
+          match m_payload m with [] => None | _ => Some (m_payload m) end).
+Proof.
+  intros Hwf Hd Hp. unfold client_write. rewrite (publish_form pre m Hwf Hd Hp). reflexivity.
+Qed.
+
 (* reading back: a broker message on in-prefix/node/child/command/ack/type is read
    as the line 'node;child;command;ack;type;payload', whatever the prefix contains *)
 Theorem echo_line inpre m p :
